@@ -8,4 +8,7 @@ CHECKS = {
 CHECKS["C05"] = dict(engine="ground exact-rational", technique="contracts on the scheme constructors; tables lifted to exact rationals; ground obligations (monomial exactness, domain, weights, boundary/permute relations) decided in exact rational arithmetic, exhaustive over scheme x order x dim x permute",
     text="the constructors have no inputs, so every clause is a finite set of ground obligations generated from the tables the real constructors return and decided exactly; all polynomials follow from the monomials by linearity",
     note="tolerance tau=1e-12*|domain| (1e-11 for the 12-digit sphere table) on the exact-rational reading of the floats; linearity lemma; leggauss not assumed (checked on its domain of use)")
+CHECKS["C17"] = dict(engine="E1 symring", technique="sidecar contracts on every felupe.math routine; real functions executed on symbolic tensors; entrywise equality with index formulas by ring normal form; eigen/solve wrappers against backend contracts",
+    text="each routine's result equals its textbook index formula for all real inputs at tensor dims 1..3, batch shapes {(),(1,1),(2,1)} incl. a broadcast axis, every mode tuple and flag variant (sym, determinant=, full_output, out None/fresh/reused, parallel); inputs proved unchanged",
+    note="A2 batch-axis genericity; eig/eigh/eigvals(h)/np.linalg.solve are external (wrapper verified against the backend contract A v = lambda v / A x = b); einsumt scheduler independence assumed; linsteps bounded stand-in (labelled, not counted)")
 NOT_APPLICABLE = {f"C{n:02d}": _PENDING for n in range(1, 21)}
